@@ -93,29 +93,31 @@ Let cache := {| w_set := w_set w; w_pods := w_pods w; w_revs := []; w_claims := 
 (* what the reconcile leaves: the revisions as they were, the set with its old status or with the computed one *)
 Definition after_ok (x : world) : Prop :=
   w_revs x = w_revs w
-  /\ (w_set x = Some s
-      \/ exists po, plan_pods s cur upd coll pods = Some po
-                    /\ w_set x = Some (set_status s (complete_rolling_update s (po_status po)) (s_rv s + 1))).
+  /\ exists po, plan_pods s cur upd coll pods = Some po /\ po_acts po = acts
+      /\ let st' := complete_rolling_update s (po_status po) in
+         ((w_set x = Some s /\ inconsistent_status s st' = false)
+          \/ (w_set x = Some (set_status s st' (s_rv s + 1)) /\ inconsistent_status s st' = true)).
 
-Lemma tail_ok po wL : plan_pods s cur upd coll pods = Some po -> w_set wL = Some s -> w_revs wL = w_revs w ->
+Lemma tail_ok po wL : plan_pods s cur upd coll pods = Some po -> po_acts po = acts -> w_set wL = Some s -> w_revs wL = w_revs w ->
   hk (fun x => x = wL)
      (update_set_status s (po_status po) ;;; truncate_history s pods (sort_revs (lrevs w s)) rcur rupd) after_ok.
 Proof.
-  intros Hpo HsL HrL.
+  intros Hpo Hac HsL HrL.
   assert (Htr : trunc_quiet s pods (sort_revs (lrevs w s)) rcur rupd = true).
   { unfold trunc_quiet. rewrite Hrhl. apply Z.leb_le.
     pose proof (filter_length_le' (fun r0 => negb (smemb (r_name r0) (r_name rcur :: r_name rupd :: map p_rev pods))) (sort_revs (lrevs w s))). lia. }
   set (st' := complete_rolling_update s (po_status po)).
-  apply (hk_bind_hoare _ _ _ (fun _ x => x = wL \/ x = with_set wL (Some (set_status s st' (s_rv s + 1))))).
-  - unfold update_set_status. fold st'. destruct (inconsistent_status s st').
+  apply (hk_bind_hoare _ _ _ (fun _ x => (x = wL /\ inconsistent_status s st' = false)
+                                         \/ (x = with_set wL (Some (set_status s st' (s_rv s + 1))) /\ inconsistent_status s st' = true))).
+  - unfold update_set_status. fold st'. destruct (inconsistent_status s st') eqn:Inc.
     + cbn [update_status_retry]. intros st HP Hf. unfold bind, try, api_update_status, call_api. rewrite Hf. cbn [take_fault].
-      rewrite HP, HsL, Z.eqb_refl. eexists. eexists. split; [reflexivity|]. cbn [rs_faults rs_api]. split; [reflexivity|]. right. reflexivity.
-    + intros st HP Hf. exists tt, st. split; [reflexivity|]. split; [exact Hf|]. left. exact HP.
+      rewrite HP, HsL, Z.eqb_refl. eexists. eexists. split; [reflexivity|]. cbn [rs_faults rs_api]. split; [reflexivity|]. right. split; reflexivity.
+    + intros st HP Hf. exists tt, st. split; [reflexivity|]. split; [exact Hf|]. left. split; [exact HP | reflexivity].
   - intros u. intros st HP Hf r0 stf E.
     assert (Hx : after_ok (rs_api st)).
-    { destruct HP as [-> | ->].
-      - split; [exact HrL | left; exact HsL].
-      - split; [exact HrL | right; exists po; split; [exact Hpo | reflexivity]]. }
+    { destruct HP as [[-> Inc] | [-> Inc]].
+      - split; [exact HrL|]. exists po. split; [exact Hpo|]. split; [exact Hac|]. left. split; [exact HsL | exact Inc].
+      - split; [exact HrL|]. exists po. split; [exact Hpo|]. split; [exact Hac|]. right. split; [reflexivity | exact Inc]. }
     destruct (reads_truncate (rs_api st) s pods (sort_revs (lrevs w s)) rcur rupd Htr st eq_refl Hf) as (s1 & E1 & W1 & _ & _).
     rewrite E1 in E. inversion E; subst. rewrite W1. exact Hx.
 Qed.
@@ -142,7 +144,7 @@ Proof.
   eapply hk_bind_hoare.
   { apply (exec_acts_ok s cache acts w). apply (plan_all_ok s upd cnt slots Hcnt Hdel Hclaims Huc cur pods W cache). intros j R. apply Hcc. exact R. }
   intros u'. cbv beta.
-  apply (tail_ok po _ Hpo); cbn; [exact Hset | reflexivity].
+  apply (tail_ok po _ Hpo Hacts); cbn; [exact Hset | reflexivity].
 Qed.
 
 (* the fair round: revisions untouched, the set keeps its spec and holds the old or the computed status *)
@@ -172,6 +174,67 @@ Lemma complete_coll s st : st_coll (complete_rolling_update s st) = st_coll st.
 Proof.
   unfold complete_rolling_update.
   destruct (String.eqb (s_strategy s) "RollingUpdate" && (st_updated st =? st_replicas st) && (st_ready st =? st_replicas st)); reflexivity.
+Qed.
+
+(* ---------------------------------------------------------------- order does not matter to the census ---- *)
+From Coq Require Import Permutation.
+From ASTS Require Import CounterProofs.
+
+Lemma sumf_perm f a b : Permutation a b -> sumf f a = sumf f b.
+Proof. induction 1; cbn [sumf]; lia. Qed.
+Lemma census_members f a b : NoDup a -> NoDup b -> same_members a b -> sumf f a = sumf f b /\ length a = length b.
+Proof.
+  intros Na Nb H. assert (P : Permutation a b) by (apply NoDup_Permutation; assumption).
+  split; [apply sumf_perm; exact P | apply Permutation_length; exact P].
+Qed.
+
+Lemma cc_name c1 c2 p : ri_name c1 = ri_name c2 -> cc c1 p = cc c2 p.
+Proof. intros H. unfold cc, rev_is. rewrite H. reflexivity. Qed.
+Lemma sumf_ext_cc c1 c2 l : ri_name c1 = ri_name c2 -> sumf (cc c1) l = sumf (cc c2) l.
+Proof. intros H. induction l as [|x t IH]; cbn [sumf]; [reflexivity|]. rewrite IH, (cc_name c1 c2 x H). reflexivity. Qed.
+
+(* the status the pod phase computes when its plan is empty, as a function of the name of the current revision *)
+Definition census_status (s : sset) (curname updname : string) (cur upd : rinfo) (coll : Z) (pods : list pod) : status :=
+  {| st_replicas := Z.of_nat (length pods); st_ready := sumf rr pods; st_current := sumf (cc cur) pods;
+     st_updated := sumf (cc upd) pods; st_currev := curname; st_updrev := updname; st_obsgen := s_gen s; st_coll := Some coll |}.
+
+Lemma empty_plan_status s cur upd coll pods po :
+  plan_pods s cur upd coll pods = Some po -> po_acts po = [] ->
+  po_status po = census_status s (ri_name cur) (ri_name upd) cur upd coll pods.
+Proof.
+  intros Hp Ha. destruct (plan_census _ _ _ _ _ _ Hp Ha) as (N1 & N2 & N3 & N4).
+  destruct (plan_status_meta _ _ _ _ _ _ Hp) as (M1 & M2 & M3 & M4).
+  unfold census_status. destruct (po_status po). cbn in *. subst. reflexivity.
+Qed.
+
+Lemma consistent_refl s st rv : inconsistent_status (set_status s st rv) st = false.
+Proof.
+  unfold inconsistent_status. cbn [set_status s_status]. rewrite Z.ltb_irrefl, !Z.eqb_refl, !String.eqb_refl. reflexivity.
+Qed.
+
+Lemma last_opt_In {A} (l : list A) x : last_opt l = Some x -> In x l.
+Proof.
+  unfold last_opt. intros H. apply in_rev. destruct (List.rev l) as [|y t]; [discriminate|]. inversion H; subst. left. reflexivity.
+Qed.
+
+(* the current revision the revision phase resolves: the revision named by status.currentRevision if there is one,
+   the update revision otherwise; the update revision is the last of the list *)
+Lemma gsr_value_cur hashes s revs c u k : gsr_value hashes s revs = Some (c, u, k) ->
+  In u revs
+  /\ ((exists c', find (fun r0 => String.eqb (r_name r0) (st_currev (s_status s))) revs = Some c' /\ c = c')
+      \/ (find (fun r0 => String.eqb (r_name r0) (st_currev (s_status s))) revs = None /\ c = u)).
+Proof.
+  unfold gsr_value. destruct (hash_of hashes (s_tmpl s) _) as [h0|]; [|discriminate]. cbv zeta.
+  destruct (last_opt (filter _ revs)) as [e|]; [|discriminate]. destruct (last_opt revs) as [l|] eqn:El; [|discriminate].
+  destruct (equal_revision l e); [|discriminate]. intros H. inversion H; subst. split; [apply last_opt_In; exact El|].
+  destruct (find _ revs) as [c'|]; [left; exists c'; split; reflexivity | right; split; reflexivity].
+Qed.
+Lemma gsr_value_cur_name hashes s revs c u k x : gsr_value hashes s revs = Some (c, u, k) ->
+  In x revs -> st_currev (s_status s) = r_name x -> r_name c = r_name x.
+Proof.
+  intros H Hx Hn. destruct (gsr_value_cur _ _ _ _ _ _ H) as (_ & [(c' & Hf & ->)|(Hf & ->)]).
+  - apply find_some in Hf. destruct Hf as [_ Hf]. apply String.eqb_eq in Hf. rewrite Hf. exact Hn.
+  - exfalso. pose proof (find_none _ _ Hf x Hx) as N. cbn in N. rewrite Hn, String.eqb_refl in N. discriminate.
 Qed.
 
 Section Closed.
@@ -246,7 +309,7 @@ Proof.
       split; [exact L1|]. split; [apply (all_claimed_round s0 upd cnt slots Hcnt Hclaims Hroll (rinfo_of c) (w_pods (Wd k))); assumption|].
       intros j R t Ht. specialize (Kk j R t Ht). unfold smemb in *. apply existsb_exists in Kk. destruct Kk as (x & Hx & Ex).
       apply existsb_exists. exists x. split; [|exact Ex]. rewrite Hstep. apply env_round_claims. exact Hx.
-    + destruct E2 as [E2|(po & Hpo & E2)].
+    + destruct E2 as (po & Hpo & _ & [[E2 _]|[E2 _]]); cbv zeta in E2.
       * exists st, rv, c. split; [exact E2 | exact Hg].
       * set (st' := complete_rolling_update s (po_status po)) in *.
         assert (Hc : coll0_of st' = coll).
@@ -276,6 +339,166 @@ Theorem full_model_converges_closed :
 Proof.
   apply (full_model_converges_rev_quiet hashes s0 upd cnt r slots Hcnt Hdel Hclaims Hroll Hpause Hsel Hrep Hext
            Wd (fun k => cur_fun (Wd k)) Hstep J_rev_quiet (ex_intro _ st0 (ex_intro _ rv0 Hset0)) W0 N0 C0 K0).
+Qed.
+
+
+(* ================================================================ and then quiet ======================== *)
+(* everything one round is known to do, in one place *)
+Lemma round_facts k :
+  exists st rv c po,
+    let s := set_status s0 st rv in
+    let pk := w_pods (Wd k) in
+    w_set (Wd k) = Some s
+    /\ gsr_value hashes s (sort_revs (lrevs (Wd O) s0)) = Some (c, rupd, coll)
+    /\ lrevs (Wd k) s = lrevs (Wd O) s0
+    /\ nothing_to_adopt (Wd k) s = true
+    /\ plan_pods s (rinfo_of c) upd coll pk = Some po
+    /\ po_acts po = plan_acts s0 (rinfo_of c) upd cnt slots pk
+    /\ wf s0 cnt slots pk /\ NoDup pk /\ all_claimed s0 pk
+    /\ NoDup (w_pods (Wd (S k))) /\ same_members (w_pods (Wd (S k))) (round s0 upd cnt slots (rinfo_of c) pk)
+    /\ (let st' := complete_rolling_update s (po_status po) in
+        (w_set (Wd (S k)) = Some s /\ inconsistent_status s st' = false)
+        \/ (w_set (Wd (S k)) = Some (set_status s st' (s_rv s + 1)) /\ inconsistent_status s st' = true)).
+Proof.
+  destruct (J_all k) as (((stx & rvx & Hsx) & Wk & Nk & Ck & Kk) & Rk & (st & rv & c & Hs & Hg)).
+  set (s := set_status s0 st rv) in *.
+  assert (Hl : lrevs (Wd k) s = lrevs (Wd O) s0) by (rewrite (lrevs_revs _ _ s Rk); reflexivity).
+  assert (Hucs : forall i, use_current s i = true -> i < umin_of s).
+  { intros i Hi. unfold s in Hi. rewrite (use_current_status s0 st rv Hroll) in Hi. apply (Huc0 s0 Hroll). exact Hi. }
+  assert (Had : nothing_to_adopt (Wd k) s = true) by (rewrite (nothing_to_adopt_revs _ _ s Rk); exact A0).
+  destruct (all_claimed_quiet s _ Ck) as [Q1 Q2].
+  assert (Hgk : gsr_value hashes s (sort_revs (lrevs (Wd k) s)) = Some (c, rupd, coll)) by (rewrite Hl; exact Hg).
+  assert (Wk' : wf s cnt slots (w_pods (Wd k))) by (apply (proj1 (wf_status s0 st rv cnt slots _)); exact Wk).
+  assert (Hsm : Z.of_nat (length (sort_revs (lrevs (Wd k) s))) <= limit) by (rewrite Hl; exact Hsmall).
+  pose proof (lift_round s upd cnt slots Hcnt Hdel Hclaims Hucs (rinfo_of c) hashes (Wd k) c rupd coll r
+                Hs Hpause Hsel Had Q1 Q2 Hgk eq_refl Hupd0 Hrep Hext Wk' Nk Kk) as [L1 L2].
+  unfold s in L2. rewrite (round_status s0 st rv Hroll) in L2. rewrite <- Hstep in L1, L2.
+  pose proof (env_round_revs_set hashes s upd cnt slots Hcnt Hdel Hclaims Hucs (rinfo_of c) (Wd k) c rupd coll r limit
+                Hs Hpause Hsel Had Q1 Q2 Hgk eq_refl Hupd0 Hrep Hext Wk' Kk Hrhl Hsm) as [_ (po & Hpo & Hac & E2)].
+  rewrite <- Hstep in E2. unfold s in Hac. rewrite (plan_acts_status s0 st rv Hroll) in Hac.
+  exists st, rv, c, po. cbv zeta. fold s.
+  split; [exact Hs|]. split; [exact Hg|]. split; [exact Hl|]. split; [exact Had|]. split; [exact Hpo|]. split; [exact Hac|].
+  split; [exact Wk|]. split; [exact Nk|]. split; [exact Ck|]. split; [exact L1|]. split; [exact L2|]. exact E2.
+Qed.
+
+(* the status the completion rule makes of a census *)
+Lemma complete_census_eq s s' c1 c2 coll' pods pods' :
+  ri_name c1 = ri_name c2 -> s_strategy s = s_strategy s' -> s_gen s = s_gen s' ->
+  NoDup pods -> NoDup pods' -> same_members pods' pods ->
+  complete_rolling_update s' (census_status s' (ri_name c2) (ri_name upd) c2 upd coll' pods')
+  = complete_rolling_update s (census_status s (ri_name c1) (ri_name upd) c1 upd coll' pods).
+Proof.
+  intros Hn Hst Hg Na Nb Hm.
+  destruct (census_members rr pods' pods Nb Na Hm) as [E1 E0].
+  destruct (census_members (cc c2) pods' pods Nb Na Hm) as [E2 _].
+  destruct (census_members (cc upd) pods' pods Nb Na Hm) as [E3 _].
+  assert (E : census_status s' (ri_name c2) (ri_name upd) c2 upd coll' pods' = census_status s (ri_name c1) (ri_name upd) c1 upd coll' pods).
+  { unfold census_status. rewrite E0, E1, E2, E3, <- Hg, <- Hn, (sumf_ext_cc c2 c1 pods (eq_sym Hn)). reflexivity. }
+  rewrite E. unfold complete_rolling_update. rewrite Hst. reflexivity.
+Qed.
+
+(* a census whose current revision is named like the update revision *)
+Lemma complete_census_done s c coll' pods :
+  let F := census_status s (ri_name c) (ri_name upd) c upd coll' pods in
+  st_currev (complete_rolling_update s F) = ri_name upd ->
+  forall c2, ri_name c2 = ri_name upd ->
+  complete_rolling_update s (census_status s (ri_name c2) (ri_name upd) c2 upd coll' pods) = complete_rolling_update s F.
+Proof.
+  intros F Hdone c2 Hn. unfold complete_rolling_update in *.
+  change (st_updated (census_status s (ri_name c2) (ri_name upd) c2 upd coll' pods)) with (st_updated F).
+  change (st_replicas (census_status s (ri_name c2) (ri_name upd) c2 upd coll' pods)) with (st_replicas F).
+  change (st_ready (census_status s (ri_name c2) (ri_name upd) c2 upd coll' pods)) with (st_ready F).
+  destruct (String.eqb (s_strategy s) "RollingUpdate" && (st_updated F =? st_replicas F) && (st_ready F =? st_replicas F)) eqn:Cnd.
+  - reflexivity.
+  - (* no completion, yet the current revision is named like the update revision *)
+    cbn [F census_status st_currev] in Hdone. unfold F, census_status. rewrite Hn, <- Hdone.
+    rewrite (sumf_ext_cc c2 c pods) by (rewrite Hn, Hdone; reflexivity). reflexivity.
+Qed.
+
+Lemma consistent_next k :
+  (forall cur, plan_acts s0 cur upd cnt slots (w_pods (Wd k)) = []) ->
+  forall st1 rv1 c1 po1,
+    w_set (Wd (S k)) = Some (set_status s0 st1 rv1) ->
+    gsr_value hashes (set_status s0 st1 rv1) (sort_revs (lrevs (Wd O) s0)) = Some (c1, rupd, coll) ->
+    plan_pods (set_status s0 st1 rv1) (rinfo_of c1) upd coll (w_pods (Wd (S k))) = Some po1 -> po_acts po1 = [] ->
+    inconsistent_status (set_status s0 st1 rv1) (complete_rolling_update (set_status s0 st1 rv1) (po_status po1)) = false.
+Proof.
+  intros Hnil st1 rv1 c1 po1 Hs1 Hg1 Hp1 Ha1.
+  destruct (round_facts k) as (st & rv & c & po & Hs & Hg & Hl & Had & Hpo & Hac & Wk & Nk & Ck & Nk' & Mk' & Hcase). cbv zeta in *.
+  set (s := set_status s0 st rv) in *. set (s1 := set_status s0 st1 rv1) in *.
+  rewrite (Hnil (rinfo_of c)) in Hac.
+  rewrite (round_quiet s0 upd cnt slots (rinfo_of c) _ (Hnil (rinfo_of c))) in Mk'.
+  rewrite (empty_plan_status _ _ _ _ _ _ Hpo Hac) in Hcase.
+  rewrite (empty_plan_status _ _ _ _ _ _ Hp1 Ha1).
+  destruct Hcase as [[Hset Hinc]|[Hset Hinc]]; rewrite Hs1 in Hset.
+  - (* nothing was written: the same set, the same revisions, the same current revision *)
+    assert (Hs1eq : s1 = s) by (inversion Hset as [[E1 E2]]; unfold s1, s; rewrite E1, E2; reflexivity).
+    assert (Hc : c1 = c) by (rewrite Hs1eq, Hg in Hg1; inversion Hg1; reflexivity).
+    subst c1. rewrite Hs1eq.
+    rewrite (complete_census_eq s s (rinfo_of c) (rinfo_of c) coll _ _ eq_refl eq_refl eq_refl Nk Nk' Mk'). exact Hinc.
+  - (* the computed status was written: the next computation reproduces it *)
+    set (F := census_status s (ri_name (rinfo_of c)) (ri_name upd) (rinfo_of c) upd coll (w_pods (Wd k))) in *.
+    assert (Hs1eq : s1 = set_status s (complete_rolling_update s F) (s_rv s + 1)) by (inversion Hset as [[E1 E2]]; unfold s1; rewrite E1, E2; reflexivity).
+    assert (Hst1 : s_status s1 = complete_rolling_update s F) by (rewrite Hs1eq; reflexivity).
+    assert (Hrev : In rupd (sort_revs (lrevs (Wd O) s0))) by (destruct (gsr_value_cur _ _ _ _ _ _ Hg) as [H _]; exact H).
+    assert (Hcin : In c (sort_revs (lrevs (Wd O) s0))).
+    { destruct (gsr_value_cur _ _ _ _ _ _ Hg) as (_ & [(c' & Hf & ->)|(_ & ->)]); [apply find_some in Hf; tauto | exact Hrev]. }
+    (* which name does the stored currentRevision carry *)
+    assert (Hname : st_currev (complete_rolling_update s F) = ri_name upd \/ st_currev (complete_rolling_update s F) = r_name c).
+    { unfold complete_rolling_update.
+      destruct (String.eqb (s_strategy s) "RollingUpdate" && (st_updated F =? st_replicas F) && (st_ready F =? st_replicas F));
+        [left | right]; reflexivity. }
+    assert (Hsame : complete_rolling_update s1 (census_status s1 (ri_name (rinfo_of c1)) (ri_name upd) (rinfo_of c1) upd coll (w_pods (Wd (S k))))
+                    = complete_rolling_update s F).
+    { destruct Hname as [Hn|Hn].
+      - assert (Hc1 : r_name c1 = r_name rupd).
+        { apply (gsr_value_cur_name hashes s1 _ c1 rupd coll rupd Hg1 Hrev). rewrite Hst1, Hn, Hupd0. reflexivity. }
+        assert (Hn1 : ri_name (rinfo_of c1) = ri_name upd) by (rewrite Hupd0; exact Hc1).
+        rewrite (complete_census_eq s s1 (rinfo_of c1) (rinfo_of c1) coll _ _ eq_refl eq_refl eq_refl Nk Nk' Mk').
+        apply (complete_census_done s (rinfo_of c) coll (w_pods (Wd k)) Hn (rinfo_of c1) Hn1).
+      - assert (Hc1 : r_name c1 = r_name c).
+        { apply (gsr_value_cur_name hashes s1 _ c1 rupd coll c Hg1 Hcin). rewrite Hst1, Hn. reflexivity. }
+        apply (complete_census_eq s s1 (rinfo_of c) (rinfo_of c1) coll _ _ (eq_sym Hc1) eq_refl eq_refl Nk Nk' Mk'). }
+    rewrite Hsame. rewrite Hs1eq. apply consistent_refl.
+Qed.
+
+(* a round after the plan has become empty leaves a QUIET world: the hypothesis of C02_quiet_world_no_write *)
+Lemma quiet_at k :
+  (forall cur, plan_acts s0 cur upd cnt slots (w_pods (Wd k)) = []) ->
+  (forall cur, plan_acts s0 cur upd cnt slots (w_pods (Wd (S k))) = []) ->
+  quietb hashes (Wd (S k)) (Wd (S k)) = true.
+Proof.
+  intros Hnil Hnil'.
+  destruct (round_facts (S k)) as (st1 & rv1 & c1 & po1 & Hs1 & Hg1 & Hl1 & Had1 & Hpo1 & Hac1 & Wk1 & Nk1 & Ck1 & _). cbv zeta in *.
+  set (s1 := set_status s0 st1 rv1) in *.
+  rewrite (Hnil' (rinfo_of c1)) in Hac1.
+  pose proof (consistent_next k Hnil st1 rv1 c1 po1 Hs1 Hg1 Hpo1 Hac1) as Hcons. fold s1 in Hcons.
+  destruct (all_claimed_quiet s1 _ Ck1) as [Q1 Q2].
+  unfold quietb. rewrite Hs1. change (get_paused (s_pause s1)) with (get_paused (s_pause s0)). rewrite Hpause.
+  change (s_selector s1) with (s_selector s0). rewrite Hsel. cbn [orb].
+  rewrite Had1, Q1, Q2. cbn [andb].
+  unfold quiet_pods. rewrite Hl1, Hg1.
+  replace {| ri_name := r_name rupd; ri_tmpl := r_tmpl rupd |} with upd by (rewrite Hupd0; reflexivity).
+  change {| ri_name := r_name c1; ri_tmpl := r_tmpl c1 |} with (rinfo_of c1).
+  rewrite Hpo1, Hac1, Hcons. cbn [negb andb].
+  unfold trunc_quiet. change (s_rhl s1) with (s_rhl s0). rewrite Hrhl. apply Z.leb_le.
+  pose proof (filter_length_le' (fun r0 => negb (smemb (r_name r0) (r_name c1 :: r_name rupd :: map p_rev (w_pods (Wd (S k))))))
+                (sort_revs (lrevs (Wd O) s0))). lia.
+Qed.
+
+(* C02 over the full model, complete: from a regular initial world with a revision list within the limit, after at
+   most mu fair rounds the pods are converged, and from the round after that on every world is quiet — a reconcile
+   issues no write at all (C02_quiet_world_no_write) *)
+Theorem full_model_converges_and_goes_quiet :
+  exists k, Z.of_nat k <= mu s0 upd cnt slots (w_pods (Wd O)) + 1
+    /\ forall m, (k <= m)%nat ->
+         pods_converged s0 upd cnt slots (w_pods (Wd m))
+         /\ quietb hashes (Wd m) (Wd m) = true.
+Proof.
+  destruct full_model_converges_closed as (k & K1 & K2).
+  exists (S k). split; [lia|]. intros m Hm. destruct m as [|m]; [lia|].
+  destruct (K2 m ltac:(lia)) as (_ & _ & P1). destruct (K2 (S m) ltac:(lia)) as (C2 & _ & P2).
+  split; [exact C2 | apply quiet_at; assumption].
 Qed.
 
 End Closed.
